@@ -278,3 +278,572 @@ def shared_dest_defaults_rule(chk: Check, rid: str, relpaths: Iterable[str],
                          "no default is declared for the shared "
                          "destination: without any of the options the tool "
                          "sees None")
+
+
+def merge_identity_rule(chk: Check, rid: str, relpaths: Iterable[str],
+                        floor: int) -> None:
+    """The entries of a ruamel mapping's `.merge` list are (position, node)
+    pairs whose node *is* the anchored Hash the `<<:` refers to.  Which
+    anchor a reference names is therefore a question of identity: two
+    Hashes with equal content (`a: &a {k: 1}`, `b: &b {k: 1}`) are still two
+    anchors, and `==` between a merged node and an anchored node takes one
+    for the other -- `h[&b]` matches a hash that merges only `*a`, and
+    deleting it removes `<<: *a`."""
+    from sa.model import walk_local
+    prog = chk.prog
+    chk.rule(rid, "a node taken from a `.merge` list is compared with other "
+             "nodes by identity (`is`), never by equality", floor=floor)
+    n = 0
+    for rel in relpaths:
+        for fi in prog.funcs_in(rel):
+            # names that hold a merged node
+            merged = set()
+            for st in walk_local(fi.node):
+                if isinstance(st, ast.For):
+                    it = st.iter
+                    if isinstance(it, ast.Call) and \
+                            src(it.func) == "enumerate" and it.args:
+                        it = it.args[0]
+                        tgt = st.target.elts[1] if isinstance(
+                            st.target, ast.Tuple) and \
+                            len(st.target.elts) == 2 else None
+                    else:
+                        tgt = st.target
+                    ok_iter = (isinstance(it, ast.Attribute) and
+                               it.attr == "merge") or \
+                        (isinstance(it, ast.Name) and any(
+                            isinstance(a, ast.Assign) and
+                            src(a.targets[0]) == it.id and
+                            ".merge" in src(a.value)
+                            for a in walk_local(fi.node)))
+                    if not ok_iter or tgt is None:
+                        continue
+                    if isinstance(tgt, ast.Tuple) and len(tgt.elts) == 2:
+                        merged.add(src(tgt.elts[1]))
+                    elif isinstance(tgt, ast.Name):
+                        merged.add(tgt.id + "[1]")
+                        for a in walk_local(fi.node):
+                            if isinstance(a, ast.Assign) and \
+                                    src(a.value) == tgt.id + "[1]":
+                                merged.add(src(a.targets[0]))
+            if not merged:
+                continue
+            for c in walk_local(fi.node):
+                if not (isinstance(c, ast.Compare) and len(c.ops) == 1):
+                    continue
+                sides = {src(c.left), src(c.comparators[0])}
+                if not (sides & merged):
+                    continue
+                if isinstance(c.ops[0], (ast.In, ast.NotIn)):
+                    continue
+                n += 1
+                text = "{}: {}".format(fi.short, src(c))
+                if isinstance(c.ops[0], (ast.Is, ast.IsNot)):
+                    chk.ok(rid, fi, c, text, "identity")
+                else:
+                    chk.fail(rid, fi, c, text,
+                             "a merged node is matched by equality: a hash "
+                             "that merges `*a` is taken to reference every "
+                             "anchored hash with the same content, so an "
+                             "Anchor segment / deletion / report names a "
+                             "reference that is not there")
+    if n < floor:
+        raise AnalysisError("comparisons of merged nodes found: {}".format(n))
+
+
+def effects_not_shortcircuited_rule(chk: Check, rid: str,
+                                    relpaths: Iterable[str],
+                                    prefixes: Iterable[str],
+                                    floor: int) -> None:
+    """A call that *does* something (merges, inserts, deletes) must run
+    whenever its statement runs.  As a later operand of `or` / `and`, as a
+    branch of a conditional expression, or inside a comprehension filter it
+    runs only for some values of what stands before it -- `done = done or
+    self._insert(...)` performs the first insertion and silently skips all
+    the following ones."""
+    from sa.model import ancestors, parent, walk_local
+    prog = chk.prog
+    prefixes = tuple(prefixes)
+    chk.rule(rid, "calls of the working routines ({}) are never a later "
+             "operand of a short-circuit operator or a branch of a "
+             "conditional expression".format(", ".join(
+                 p + "*" for p in prefixes)), floor=floor)
+    n = 0
+    for rel in relpaths:
+        for fi in prog.funcs_in(rel):
+            for c in walk_local(fi.node):
+                if not (isinstance(c, ast.Call) and
+                        isinstance(c.func, ast.Attribute) and
+                        c.func.attr.startswith(prefixes)):
+                    continue
+                n += 1
+                why = None
+                child = c
+                for a in ancestors(c):
+                    if isinstance(a, ast.stmt):
+                        break
+                    if isinstance(a, ast.BoolOp) and a.values[0] is not child:
+                        why = "a later operand of `{}`".format(
+                            "or" if isinstance(a.op, ast.Or) else "and")
+                    elif isinstance(a, ast.IfExp) and a.test is not child:
+                        why = "a branch of a conditional expression"
+                    elif isinstance(a, ast.comprehension) and \
+                            child in a.ifs[1:]:
+                        why = "a later filter of a comprehension"
+                    child = a
+                text = "{}: {}(...)".format(fi.short, c.func.attr)
+                if why:
+                    chk.fail(rid, fi, c, text,
+                             "the call is {}: it is skipped whenever the "
+                             "operands before it already decide the "
+                             "expression, so the work it stands for (an "
+                             "insertion at a further merge target, say) "
+                             "silently does not happen".format(why))
+                else:
+                    chk.ok(rid, fi, c, text, "runs whenever its statement "
+                           "runs")
+    if n < floor:
+        raise AnalysisError("working-routine calls found: {}".format(n))
+
+
+def _doc_names(fi):
+    """Locals of ``fi`` that (may) hold document keys / values: parameters
+    annotated as document data, and everything computed from them."""
+    from rules.c06 import _doc_params
+    from sa.model import walk_local
+    doc = set(_doc_params(fi))
+    for extra in ("data", "lhs", "rhs", "haystack", "parent", "node"):
+        if extra in fi.params():
+            doc.add(extra)
+
+    def mentions(e) -> bool:
+        for x in ast.walk(e):
+            if isinstance(x, ast.Name) and x.id in doc:
+                return True
+            if isinstance(x, ast.Attribute) and x.attr in (
+                    "parentref", "node", "unwrapped_node"):
+                return True
+        return False
+    for _ in range(5):
+        before = len(doc)
+        for n in walk_local(fi.node):
+            if isinstance(n, (ast.Assign, ast.AnnAssign)) and \
+                    n.value is not None and mentions(n.value):
+                tg = n.targets if isinstance(n, ast.Assign) else [n.target]
+                for t in tg:
+                    for x in ast.walk(t):
+                        if isinstance(x, ast.Name) and \
+                                isinstance(x.ctx, ast.Store):
+                            doc.add(x.id)
+            elif isinstance(n, (ast.For, ast.comprehension)) and \
+                    mentions(n.iter):
+                for x in ast.walk(n.target):
+                    if isinstance(x, ast.Name):
+                        doc.add(x.id)
+        if len(doc) == before:
+            break
+    return doc, mentions
+
+
+def implicit_ordering_rule(chk: Check, rid: str, funcs, floor: int) -> None:
+    """`sorted()`, `.sort()`, `min()` and `max()` compare the elements with
+    `<`.  The keys of a Hash, the members of a set and the scalars of a
+    document can be of any mix of types (int and str keys, a null member),
+    for which `<` raises TypeError.  Ordering them is safe only through a
+    key function that maps every element to one kind (`key=str`)."""
+    from sa.model import walk_local
+    chk.rule(rid, "no implicit ordering (sorted / sort / min / max) of "
+             "document keys, members or values except through a key "
+             "function that turns each into text or a number", floor=floor)
+    sample = ast.parse(
+        "def f(self, data: Any):\n"
+        "    for k in sorted(data):\n        pass\n"
+        "    for k in sorted(data, key=str):\n        pass\n")
+    from sa.model import set_parents
+    set_parents(sample)
+
+    class _S:
+        node = sample.body[0]
+
+        @staticmethod
+        def params():
+            return ["self", "data"]
+    hits = _ordering_sites(_S)
+    if [bool(w) for _, _, w in hits] != [True, False]:
+        raise AnalysisError("implicit-ordering detector lost its positive "
+                            "sample")
+    n = 0
+    for fi in funcs:
+        sites = _ordering_sites(fi)
+        n += 1
+        bad = [(c, t, w) for c, t, w in sites if w]
+        if not bad:
+            chk.ok(rid, fi, fi.node, "{}: {} ordering call(s)".format(
+                fi.short, len(sites)), "none orders document values", False)
+        for c, text, why in bad:
+            chk.fail(rid, fi, c, "{}: {}".format(fi.short, text), why)
+    if n < floor:
+        raise AnalysisError("functions examined: {}".format(n))
+
+
+def _ordering_sites(fi):
+    from sa.model import walk_local
+    doc, mentions = _doc_names(fi)
+    out = []
+    for c in walk_local(fi.node):
+        if not isinstance(c, ast.Call):
+            continue
+        operand = None
+        if isinstance(c.func, ast.Name) and \
+                c.func.id in ("sorted", "min", "max") and c.args:
+            if c.func.id != "sorted" and len(c.args) > 1:
+                operand = ast.Tuple(elts=list(c.args), ctx=ast.Load())
+            else:
+                operand = c.args[0]
+        elif isinstance(c.func, ast.Attribute) and c.func.attr == "sort" \
+                and not c.args:
+            operand = c.func.value
+        if operand is None:
+            continue
+        key = next((k.value for k in c.keywords if k.arg == "key"), None)
+        text = src(c)[:70]
+        why = None
+        if key is None:
+            if mentions(operand):
+                why = ("orders document values with `<`: a Hash with an "
+                       "int and a str key, a set with a null member, or a "
+                       "list of mixed scalars raises TypeError")
+        else:
+            body = key.body if isinstance(key, ast.Lambda) else key
+            safe = (isinstance(body, ast.Name) and
+                    body.id in ("str", "repr", "len", "id")) or \
+                (isinstance(body, ast.Call) and
+                 isinstance(body.func, ast.Name) and
+                 body.func.id in ("str", "repr", "len", "id", "int",
+                                  "float")) or \
+                isinstance(body, (ast.List, ast.ListComp, ast.Constant))
+            if not safe and (mentions(operand) or mentions(body)):
+                why = ("the key function `{}` hands document keys / values "
+                       "to `<` as they are: keys of mixed type (int and "
+                       "str, null and str) raise TypeError".format(
+                           src(key)[:50]))
+        out.append((c, text, why))
+    return out
+
+
+def late_binding_rule(chk: Check, rid: str, relpaths: Iterable[str],
+                      floor: int) -> None:
+    """A lambda (or nested def) reads the variables of the enclosing
+    function *when it is called*, not when it is created.  One created in a
+    loop and kept for later (appended to a list, stored) sees, for every
+    iteration, the values of the last one: deferred per-item work is done
+    N times for the last item and never for the others."""
+    from sa.model import ancestors, parent, walk_local
+    prog = chk.prog
+    chk.rule(rid, "no lambda / nested function created in a loop and kept "
+             "for later refers to a variable that the loop re-binds",
+             floor=floor)
+    sample = ast.parse(
+        "def f(items):\n    later = []\n    for it in items:\n"
+        "        x = it.v\n        later.append(lambda: use(x))\n"
+        "        now = sorted(items, key=lambda i: i.k + x)\n"
+        "    return later\n")
+    from sa.model import set_parents
+    set_parents(sample)
+    if len(_late_bound(sample.body[0])) != 1:
+        raise AnalysisError("late-binding detector lost its positive sample")
+    n = 0
+    for rel in relpaths:
+        for fi in prog.funcs_in(rel):
+            n += 1
+            hits = _late_bound(fi.node)
+            if not hits:
+                chk.ok(rid, fi, fi.node, fi.short, "no deferred closure "
+                       "over a loop variable", False)
+            for lam, names in hits:
+                chk.fail(rid, fi, lam, "{}: `{}`".format(
+                    fi.short, src(lam)[:60]),
+                    "the closure is kept for later and reads {} when it is "
+                    "finally called: every kept closure then sees the "
+                    "values of the last iteration (work deferred for the "
+                    "first items is done on the last one instead)".format(
+                        sorted(names)))
+    if n < floor:
+        raise AnalysisError("functions examined: {}".format(n))
+
+
+def _late_bound(fn):
+    from sa.model import ancestors, parent
+    out = []
+    for lam in ast.walk(fn):
+        if not isinstance(lam, (ast.Lambda, ast.FunctionDef)) or lam is fn:
+            continue
+        loops = [a for a in ancestors(lam)
+                 if isinstance(a, (ast.For, ast.While))]
+        if not loops:
+            continue
+        loop = loops[0]
+        # consumed on the spot: called directly, or handed to a call that
+        # runs it before returning (key= / map / filter / sorted ...)
+        p_ = parent(lam)
+        if isinstance(lam, ast.Lambda):
+            if isinstance(p_, ast.Call) and p_.func is lam:
+                continue
+            if isinstance(p_, ast.keyword) and p_.arg == "key":
+                continue
+            if isinstance(p_, ast.Call) and isinstance(p_.func, ast.Name) \
+                    and p_.func.id in ("map", "filter", "sorted", "min",
+                                       "max", "any", "all", "next"):
+                continue
+        rebound = set()
+        for x in ast.walk(loop):
+            if isinstance(x, ast.Name) and isinstance(x.ctx, ast.Store):
+                rebound.add(x.id)
+        args = lam.args
+        own = {a.arg for a in args.posonlyargs + args.args + args.kwonlyargs}
+        if args.vararg:
+            own.add(args.vararg.arg)
+        if args.kwarg:
+            own.add(args.kwarg.arg)
+        body = [lam.body] if isinstance(lam, ast.Lambda) else lam.body
+        used = set()
+        for b in body:
+            for x in ast.walk(b):
+                if isinstance(x, ast.Name) and isinstance(x.ctx, ast.Load):
+                    used.add(x.id)
+                elif isinstance(x, ast.Name) and \
+                        isinstance(x.ctx, ast.Store):
+                    own.add(x.id)
+        late = (used - own) & rebound
+        if late:
+            out.append((lam, late))
+    return out
+
+
+def no_copies_of_document_nodes_rule(chk: Check, rid: str,
+                                     relpaths: Iterable[str],
+                                     floor: int) -> None:
+    """The merger moves right-hand nodes into the left document *by
+    reference*.  That is what keeps an anchored node the one object all of
+    its aliases refer to, and what lets `merge_with` recognise "the target
+    is the right-hand document itself".  A copy (`deepcopy`, `copy()`) of a
+    right-hand node duplicates every anchored node inside it: the anchor is
+    then defined twice in the result, which dumps but does not load."""
+    from sa.model import walk_local
+    prog = chk.prog
+    chk.rule(rid, "no routine of the merger copies a document node "
+             "(deepcopy / copy): nodes are inserted by reference",
+             floor=floor)
+    n = 0
+    for rel in relpaths:
+        for fi in prog.funcs_in(rel):
+            n += 1
+            doc, mentions = _doc_names(fi)
+            bad = []
+            for c in walk_local(fi.node):
+                if not isinstance(c, ast.Call):
+                    continue
+                f = src(c.func)
+                if f.split(".")[-1] in ("deepcopy", "copy") and (
+                        (c.args and mentions(c.args[0])) or
+                        (isinstance(c.func, ast.Attribute) and not c.args
+                         and mentions(c.func.value))):
+                    from sa.model import parent as _parent
+                    pa = _parent(c)
+                    if isinstance(pa, ast.Assign) and pa in fi.node.body \
+                            and len(pa.targets) == 1 and c.args and \
+                            src(pa.targets[0]) == src(c.args[0]) and \
+                            src(c.args[0]) in fi.params():
+                        # the whole operand is replaced by its copy before
+                        # anything looks at it: sharing inside the copy is
+                        # preserved and no identity has been taken yet
+                        continue
+                    bad.append(c)
+            if not bad:
+                chk.ok(rid, fi, fi.node, fi.short, "no copy of a document "
+                       "node", False)
+            for c in bad:
+                chk.fail(rid, fi, c, "{}: `{}`".format(fi.short,
+                                                        src(c)[:50]),
+                         "a copy of a document node is merged instead of "
+                         "the node: anchored scalars inside it now exist "
+                         "twice (`&name` defined twice in the output, which "
+                         "the loader refuses), and identity tests on the "
+                         "node (`target is rhs`) no longer hold")
+    if n < floor:
+        raise AnalysisError("functions examined: {}".format(n))
+
+
+def _first_use(stmts, name):
+    """'load' / 'store' / None: how ``name`` is first touched in the
+    statements (source order)."""
+    nodes = []
+    for st in stmts:
+        for x in ast.walk(st):
+            if isinstance(x, ast.Name) and x.id == name:
+                nodes.append(x)
+            elif isinstance(x, ast.arg) and x.arg == name:
+                return None     # a nested scope re-declares it
+    if not nodes:
+        return None
+    # in `a = f(a)` the right side is evaluated first
+    def order(x):
+        st = x
+        from sa.model import parent
+        while not isinstance(st, ast.stmt):
+            st = parent(st)
+        late = isinstance(st, (ast.Assign, ast.AnnAssign, ast.AugAssign)) \
+            and isinstance(x.ctx, ast.Store)
+        return (st.lineno, 1 if late else 0, x.lineno, x.col_offset)
+    first = min(nodes, key=order)
+    return "load" if isinstance(first.ctx, ast.Load) else "store"
+
+
+def loop_shadowing_sites(fn):
+    """Inner loops (and comprehension-free `for` targets) that re-bind a
+    name which is bound outside the loop and read again afterwards."""
+    from sa.model import parent
+    out = []
+    params = {a.arg for a in fn.args.posonlyargs + fn.args.args +
+              fn.args.kwonlyargs}
+    for loop in ast.walk(fn):
+        if not isinstance(loop, ast.For) or loop is fn:
+            continue
+        names = {x.id for x in ast.walk(loop.target)
+                 if isinstance(x, ast.Name)}
+        # bound before this loop, outside it?
+        outer_bound = set(params)
+        for x in ast.walk(fn):
+            if isinstance(x, ast.Name) and isinstance(x.ctx, ast.Store) and \
+                    x.lineno < loop.lineno and not any(
+                        a is loop for a in _anc(x)):
+                outer_bound.add(x.id)
+        for name in sorted(names & outer_bound):
+            if name.startswith("_"):
+                continue
+            # statements after the loop, block by block outwards
+            cur = loop
+            verdict = None
+            while verdict is None and cur is not fn:
+                blk = parent(cur)
+                for field in ("body", "orelse", "finalbody", "handlers"):
+                    seq = getattr(blk, field, None)
+                    if isinstance(seq, list) and cur in seq:
+                        rest = seq[seq.index(cur) + 1:]
+                        fu = _first_use(rest, name)
+                        if fu is not None:
+                            verdict = fu
+                        elif isinstance(blk, (ast.For, ast.While)) and \
+                                field == "body":
+                            # wraps around to the next iteration
+                            tn = {x.id for x in ast.walk(blk.target)
+                                  if isinstance(x, ast.Name)} \
+                                if isinstance(blk, ast.For) else set()
+                            if name in tn:
+                                verdict = "store"
+                            else:
+                                before = seq[:seq.index(cur)]
+                                fu = _first_use(before, name)
+                                if fu is not None:
+                                    verdict = fu
+                cur = blk
+            if verdict == "load":
+                out.append((loop, name))
+    return out
+
+
+def _anc(node):
+    from sa.model import ancestors
+    return ancestors(node)
+
+
+def loop_shadowing_rule(chk: Check, rid: str, relpaths: Iterable[str],
+                        floor: int) -> None:
+    """A `for` target is an ordinary assignment: it does not get a scope of
+    its own.  An inner loop that uses, as its target, a name the
+    surrounding code has bound and goes on reading afterwards leaves that
+    name holding the last item of the inner loop -- e.g. the de-duplication
+    loop of yaml-paths re-using `expression`: every result recorded after
+    the first is attributed to a path instead of the search expression."""
+    prog = chk.prog
+    chk.rule(rid, "no loop re-binds, as its target, a name that is bound "
+             "outside the loop and read again after it", floor=floor)
+    sample = ast.parse(
+        "def f(exprs, seen):\n    for expression in exprs:\n"
+        "        for (expression, p) in seen:\n            pass\n"
+        "        seen.append((expression, 1))\n"
+        "    for k in exprs:\n        pass\n"
+        "    for k in seen:\n        pass\n")
+    from sa.model import set_parents
+    set_parents(sample)
+    got = loop_shadowing_sites(sample.body[0])
+    if [nm for _, nm in got] != ["expression"]:
+        raise AnalysisError("loop-shadowing detector lost its positive "
+                            "sample: {}".format([nm for _, nm in got]))
+    n = 0
+    for rel in relpaths:
+        for fi in prog.funcs_in(rel):
+            n += 1
+            hits = loop_shadowing_sites(fi.node)
+            if not hits:
+                chk.ok(rid, fi, fi.node, fi.short, "no shadowing loop "
+                       "target", False)
+            for loop, name in hits:
+                chk.fail(rid, fi, loop, "{}: `for {} in ...`".format(
+                    fi.short, src(loop.target)),
+                    "the loop re-binds `{}`, which is bound outside the "
+                    "loop and read again after it: that later read sees "
+                    "the last item of this loop".format(name))
+    if n < floor:
+        raise AnalysisError("functions examined: {}".format(n))
+
+
+def no_jump_out_of_finally_rule(chk: Check, rid: str,
+                                relpaths: Iterable[str], floor: int) -> None:
+    """A `return`, `break` or `continue` inside a `finally:` block discards
+    whatever exception is in flight -- including the SystemExit that
+    `log.critical(msg, code)` raises to end a failed run.  The tool then
+    carries on as if nothing had happened: it writes the file, makes the
+    backup and exits 0."""
+    from sa.model import walk_local
+    prog = chk.prog
+    chk.rule(rid, "no return / break / continue inside a `finally:` block "
+             "(it would swallow the exit of a failed run)", floor=floor)
+    n = 0
+    for rel in relpaths:
+        for fi in prog.funcs_in(rel):
+            n += 1
+            bad = []
+            for t in walk_local(fi.node):
+                if not isinstance(t, ast.Try):
+                    continue
+                for st in t.finalbody:
+                    for x in ast.walk(st):
+                        if isinstance(x, ast.Return):
+                            bad.append(x)
+                        elif isinstance(x, (ast.Break, ast.Continue)):
+                            # only when the loop it leaves is outside the
+                            # finally block
+                            from sa.model import ancestors
+                            inner = False
+                            for a in ancestors(x):
+                                if a is st or a is t:
+                                    break
+                                if isinstance(a, (ast.For, ast.While)):
+                                    inner = True
+                                    break
+                            if not inner:
+                                bad.append(x)
+            if not bad:
+                chk.ok(rid, fi, fi.node, fi.short, "no jump out of a "
+                       "finally block", False)
+            for x in bad:
+                chk.fail(rid, fi, x, "{}: `{}` in finally".format(
+                    fi.short, src(x)[:40]),
+                    "leaving a `finally:` block with `{}` drops the "
+                    "exception in flight: after log.critical(...) (which "
+                    "raises SystemExit) the run continues, the target file "
+                    "is rewritten, the backup appears and the exit status "
+                    "is 0".format(type(x).__name__.lower()))
+    if n < floor:
+        raise AnalysisError("functions examined: {}".format(n))
